@@ -5,6 +5,7 @@ import (
 	"regexp"
 	"strings"
 	"unicode"
+	"unicode/utf8"
 
 	"github.com/Vedant9500/WTF/internal/constants"
 	"github.com/Vedant9500/WTF/internal/errors"
@@ -23,12 +24,7 @@ func ValidateQuery(query string) (string, error) {
 	}
 
 	// Basic sanitization - remove control characters but keep printable chars
-	cleaned := strings.Map(func(r rune) rune {
-		if unicode.IsControl(r) && r != '\n' && r != '\t' {
-			return -1 // Remove control characters except newlines and tabs
-		}
-		return r
-	}, query)
+	cleaned := stripControlChars(query)
 
 	// Check for potentially dangerous characters after sanitization
 	dangerousChars := regexp.MustCompile(`[<>|&;$]`)
@@ -55,6 +51,29 @@ func ValidateQuery(query string) (string, error) {
 	}
 
 	return cleaned, nil
+}
+
+// stripControlChars removes control characters except newlines and tabs. Bytes are
+// copied as they are: strings.Map would turn every byte that is not valid UTF-8 into
+// a three-byte U+FFFD, so an accepted query could come back longer than the length
+// limit it was just checked against and be rejected when validated again. Removing
+// a control character can join two such stray bytes into a new character, hence the
+// loop until nothing changes.
+func stripControlChars(s string) string {
+	for {
+		var kept strings.Builder
+		for i := 0; i < len(s); {
+			r, size := utf8.DecodeRuneInString(s[i:])
+			if !(unicode.IsControl(r) && r != '\n' && r != '\t') {
+				kept.WriteString(s[i : i+size])
+			}
+			i += size
+		}
+		if kept.Len() == len(s) {
+			return s
+		}
+		s = kept.String()
+	}
 }
 
 // ValidateLimit validates search result limits
